@@ -868,19 +868,26 @@ func (sc *segmentController[T, O]) create(ctx context.Context, start time.Time) 
 	// Anchor stdEnd to the aligned start before any bump so end stays on the
 	// global grid even when start is bumped past a legacy off-grid neighbor;
 	// subsequent segments then self-heal back to the grid.
+	ts := start
 	alignedStart := options.SegmentInterval.Standard(start)
 	stdEnd := options.SegmentInterval.NextTime(alignedStart)
 	start = alignedStart
-	// sc.lst is sorted ascending by start time with non-overlapping ranges;
-	// a single pass bumps start past every legacy segment that swallows it
-	// (each next segment.Start >= previous.End).
+	// No existing segment contains ts, so every segment lies entirely before it
+	// (End <= ts) or entirely after it (Start > ts). The new segment is the gap
+	// around ts, clipped to the grid bucket: start is bumped past the nearest
+	// legacy segment before ts and `next` is the nearest one after ts. (Bumping
+	// only past a segment that swallows the aligned start, and capping at the first
+	// segment after the aligned start, returned a segment that ends before ts when
+	// an off-grid legacy segment lies between the bucket start and ts.)
 	var next *segment[T, O]
 	for _, s := range sc.lst {
-		if s.Contains(start.UnixNano()) {
-			start = s.End
+		if !s.End.After(ts) {
+			if s.End.After(start) {
+				start = s.End
+			}
 			continue
 		}
-		if next == nil && s.Start.After(start) {
+		if next == nil || s.Start.Before(next.Start) {
 			next = s
 		}
 	}
